@@ -163,7 +163,9 @@ class Unary(Op):
         if f == "abs":
             return np.abs(z)
         if f == "sqrt_abs":
-            return np.sqrt(np.abs(z))
+            # (+1: sqrt is ill-conditioned at 0 and would amplify a 1e-16 difference between two
+            # correct FFT evaluations to 1e-8; every generated operation is well-conditioned)
+            return np.sqrt(np.abs(z) + 1)
         if f == "exp_small":
             return np.exp(z * 0.01)
         if f == "op_neg":
